@@ -542,6 +542,9 @@ def _eq(world, ex, a, b):
             b2 = b.z3str() if isinstance(b, BitStr) else to_str(b)
             return a2 == b2
         return False
+    if isinstance(a, FuncVal) and isinstance(b, FuncVal):
+        # bound methods compare equal when they are the same function of the same object
+        return a.fi is b.fi and a.bound is b.bound
     if is_node(a) and is_node(b):
         return a == b
     if is_node(a) or is_node(b):
